@@ -111,6 +111,9 @@ func textualValuesValid(f field.Field) bool {
 func wireBits(spec *Sx, m *iso8583.Message, packed []byte) ([]int, bool) {
 	sa := spec.Args()
 	B, auto, enc := sa[1].List[0].Int(), sa[1].List[1].Bool(), sa[1].List[2].Atom
+	if B == 0 {
+		B = 8 // Length 0 is the default block of 8 bytes
+	}
 	pos := 0
 	if _, ok := m.GetFields()[0]; ok {
 		mtiPacked, err := m.GetField(0).Pack()
